@@ -97,8 +97,29 @@ def long_line_cases(chk):
     return out
 
 
+def mixed_separator_cases(chk):
+    """a file whose lines do not all use the same time-code separator: every line is timed by its own separator (`;` drop-frame:
+    clock time, `:` non-drop-frame: 1001/1000 slower)"""
+    sub = chk.sub("mixed_separators")
+    out = []
+    for pattern in ([";", ":", ":", ":"], [":", ";", ";", ";"], [";", ":", ";", ":"], [":", ":", ";", ";"]):
+        ff = [sub.choice([0, 10, 29]) for _ in range(4)]
+        secs = [1, 3, 120, 124]
+        cap = ["9420", "9420", "94ae", "94ae", "9470", "9470", "c1c2", "c8e5", "942f", "942f"]
+        lines = ["Scenarist_SCC V1.0", ""]
+        T = []
+        for k in range(4):
+            ws = cap if k % 2 == 0 else ["942c", "942c"]
+            lines += ["00:%02d:%02d%s%02d\t%s" % (secs[k] // 60, secs[k] % 60, pattern[k], ff[k], " ".join(ws)), ""]
+            n = cap.index("942f") if k % 2 == 0 else 0
+            fac = Fraction(1) if pattern[k] == ";" else Fraction(1001, 1000)
+            T.append((Fraction(secs[k]) + Fraction(ff[k] + n, 30)) * fac * 10 ** 6)
+        out.append(("\n".join(lines) + "\n", [(T[0], T[1]), (T[2], T[3])]))
+    return out
+
+
 def explore_long(chk):
-    cases = long_line_cases(chk)
+    cases = long_line_cases(chk) + mixed_separator_cases(chk)
     b = core.Batch()
     ops = [b.add("scc.read", capio.fr(0), core.enc(text)) for text, _ in cases]
     out = b.run() if chk.driver_ok else None
@@ -110,7 +131,7 @@ def explore_long(chk):
         if I[0] != "ok":
             chk.property_failure(case, "a line of more than 1000 frames was not read (%s)" % I[1])
         elif len(I[1]) != len(want) or any(abs(c[0] - w[0]) > TOL or abs(c[1] - w[1]) > TOL for c, w in zip(I[1], want)):
-            chk.property_failure(case, "on a line that runs for more than 1000 frames a caption's start/end are not the instants of its EOC and of the next EDM")
+            chk.property_failure(case, "a caption's start/end are not the instants of its EOC and of the next EDM (line longer than 1000 frames, or lines with different time-code separators)")
         if out is not None:
             d = sc.compare_impl_model(I, sc.dec_model(out[o]))
             if d:
